@@ -8,5 +8,6 @@ Cfg0 == [ttl |-> 20, mttl |-> 5, ord |-> FALSE, filt |-> NoFilter, minB |-> 2, m
 C1 == [name |-> "s1", topic |-> "t1", cfg |-> Cfg0]
 mcSetup == << [op |-> "CreateTopic", name |-> "t1"], [op |-> "CreateSub", c |-> C1] >>
 mcMsgKinds == { [key |-> "", attrs |-> <<>>] }
+mcWeights == [op \in {} |-> 1]
 mcOps == {"Publish", "Pull", "Ack", "ModAck", "Nack", "Tick"}
 =============================================================================
